@@ -6,7 +6,7 @@
 From Coq Require Import List NArith String.
 From Coq Require Import Strings.Byte.
 From GoBT Require Import lib.Bytes lib.Parse lib.VarInt model.Tx proofs.TxProofs
-  model.Alloc proofs.AllocProofs model.Amount model.Json proofs.JsonProofs.
+  model.Alloc proofs.AllocProofs model.Amount model.Json proofs.JsonProofs proofs.AuditAAlloc proofs.AuditAJson.
 Import ListNotations.
 Local Open Scope N_scope.
 
@@ -15,7 +15,11 @@ Local Open Scope N_scope.
     Txs.ReadFrom is [read_txs]; Input.ReadFrom / ReadFromExtended are [read_input false/true];
     Output.ReadFrom is [read_output].  The decoder functions contain no partial operation (no
     index, no slice bound and no [make] taken from a decoded field), so [answers] - "not the fuel
-    artefact of the count loops" - is all there is to show. *)
+    artefact of the count loops" - is all there is to show.
+    (The "without panicking" half therefore holds by construction of the model: the result type has no panic
+    outcome.  What these theorems prove is termination under attacker-chosen counts up to 2^64-1; that the Go
+    decoders contain no partial operation is carried by the correspondence - hostile lengths and counts in
+    resource-limited child processes - and, for allocation sizes, by the cost model below.) *)
 Theorem C09_decode_total_tx : forall bs, answers (read_tx bs).
 Proof. exact decode_total_tx. Qed.
 Print Assumptions C09_decode_total_tx.
@@ -82,6 +86,30 @@ Print Assumptions C09_alloc_linear_input.
 Theorem C09_alloc_linear_output : forall bs, alloc_of (a_read_output bs) <= alloc_bound (lenN bs).
 Proof. exact alloc_linear_output. Qed.
 Print Assumptions C09_alloc_linear_output.
+(** the same bound against the bytes CONSUMED, on success and on error ([alloc_vs_consumed]:
+    allocated <= 32 * consumed + 16384, and not the fuel artefact): a small transaction at the head of a long
+    stream or block costs little, whatever follows it.  Strictly stronger than the five theorems above (together
+    with consumed <= supplied). *)
+Theorem C09_alloc_linear_in_consumed_tx : forall bs, alloc_vs_consumed (a_read_tx bs).
+Proof. exact alloc_consumed_tx. Qed.
+Print Assumptions C09_alloc_linear_in_consumed_tx.
+Theorem C09_alloc_linear_in_consumed_stream : forall bs, alloc_vs_consumed (a_tx_from_stream bs).
+Proof. exact alloc_consumed_stream. Qed.
+Print Assumptions C09_alloc_linear_in_consumed_stream.
+Theorem C09_alloc_linear_in_consumed_txs : forall bs, alloc_vs_consumed (a_read_txs bs).
+Proof. exact alloc_consumed_txs. Qed.
+Print Assumptions C09_alloc_linear_in_consumed_txs.
+Theorem C09_alloc_linear_in_consumed_input : forall ext bs, alloc_vs_consumed (a_read_input ext bs).
+Proof. exact alloc_consumed_input. Qed.
+Print Assumptions C09_alloc_linear_in_consumed_input.
+Theorem C09_alloc_linear_in_consumed_output : forall bs, alloc_vs_consumed (a_read_output bs).
+Proof. exact alloc_consumed_output. Qed.
+Print Assumptions C09_alloc_linear_in_consumed_output.
+Example C09_small_tx_before_long_stream :
+  let b := [x01;x00;x00;x00; x00; x00; x00;x00;x00;x00] ++ repeat_byte 3000 xaa in
+  match a_tx_from_stream b with AOk _ n _ al => andb (n =? 10) (al <=? 32 * 10 + 16384) | _ => false end = true.
+Proof. vm_compute. reflexivity. Qed.
+
 (** so no request can reach makeslice's limit (2^48 on linux/amd64) for inputs below 2^42 bytes *)
 Theorem C09_alloc_below_maxalloc : forall bs, lenN bs < 2 ^ 42 ->
   alloc_of (a_read_tx bs) < 2 ^ 48 /\ alloc_of (a_read_txs bs) < 2 ^ 48.
@@ -104,6 +132,12 @@ Theorem C09_json_struct_decode_no_panic :
   (forall l, node_unmarshal_utxos l <> JPanic).
 Proof. exact json_struct_decode_no_panic. Qed.
 Print Assumptions C09_json_struct_decode_no_panic.
+
+(** what the hex shortcut of the JSON decoders returns is a well-formed transaction object (every locking script
+    set, Go field ranges): it can be marshalled again without a nil dereference (hypothesis of C16's marshal theorem) *)
+Theorem C09_json_hex_result_wf : forall s g, tx_from_hex s = JOk g -> wf_gtx g.
+Proof. exact tx_from_hex_wf. Qed.
+Print Assumptions C09_json_hex_result_wf.
 
 (** non-vacuity / sanity: a hostile length is an error after the bytes that were there, with a
     small allocation; the missing-scriptSig and null-element documents are errors, not panics *)
